@@ -12,6 +12,21 @@ CLAIMED = {
  "C04": dict(level="exploration", technique="bounded-exhaustive differential execution (optimize off vs on) of enumerated programs with host-effect log",
    text="Every enumerated program with host effects, explicit failures and discarded bindings up to size 5 (quick) / 6 (thorough), the full product of 16 dead/live positions x 14 effectful or failing expressions (direct, through record fields, closures, partial applications, an imported module) and ordered pairs of them, and the C01 feature products are each compiled twice by the real pipeline and compared on value, failure and the sequence of host-function calls.",
    note="Differential on gluon itself; the only tolerated difference is computed exactly from the reference semantics (first j failing unused built-in arithmetic operations skipped).", ref="4.4"),
+ "C12": dict(level="fault_enumeration", technique="bounded-exhaustive round trip of enumerated programs through real bytecode serialisation plus exhaustive truncation / undefined-reference fault enumeration in isolated processes",
+   text="Every enumerated program up to size 5 (quick) / 6 (thorough) and the feature products is compiled to bytecode with the real compile_to_bytecode (serde_json), loaded and run in the same VM and in a fresh VM (dependencies imported first) and compared with the source run; each such module is also loaded into a VM without its dependencies (must be an error, not a crash). For a base set of ~22 programs EVERY truncation length of the serialised module and EVERY string leaf replaced by an undefined name is loaded in a worker process followed by a canary evaluation.",
+   note="Only the serde_json route; corrupted modules that still deserialise may legitimately run; panics, crashes, hangs and an unusable VM are the violations.", ref="4.12"),
+ "C16": dict(level="exploration", technique="exhaustive enumeration of orderings/histories of a program set on one VM, fresh VMs and fresh processes, compared byte-for-byte",
+   text="For a set S of ~11k programs (well-typed, every token mutant of a few programs, multi-error and implicit-resolution-error programs) the triple (value, type text, rendered diagnostics) is compared between two fresh VMs, after every ordered pair and after all 24 orders of every 4-subset of a core set on one long-lived VM, and across k fresh OS processes.",
+   note="The process dimension (hash seeds, ASLR) is sampled with k = 4 / 32 processes and is NOT claimed exhaustive; everything else is enumerated completely.", ref="4.16"),
+ "C17": dict(level="model_checking", technique="explicit-state exploration: all operation sequences up to depth L generated from an executable Rust model and replayed on the real implementation",
+   text="Every operation sequence of length 5 (quick; 7 thorough) over per-family alphabets on 2 channels, 2 references, 6 lazies (pure, failing, self-dependent, dependent, yielding) and 4 green threads is generated by a depth-first walk of a boring Rust model (VecDeque, cell, thunk state machine, coroutine) and replayed as one Gluon IO program on the real VM inside worker processes with a time limit; every step's observation and the number of thunk evaluations must equal the model's. A sequence of length L validates all its prefixes; hangs are verdicts.",
+   note="Resources and thread bodies are fixed; undocumented behaviour (yield inside a thunk forced by a green thread, resume of a failed thread) is not modelled.", ref="4.17"),
+ "C18": dict(level="exploration", technique="bounded-exhaustive enumeration of types x widths, printed by the real printer and read back by the real parser",
+   text="All types up to weighted size 6 (quick) / 7-8 (thorough) built through the gluon_base::types constructors (functions, implicit arguments, forall, records with type fields and open tails, variants incl. GADT-style, effect rows, applications, operator names) are printed at 45 widths (20..60, 80, 100, 140, 200; every width 20..200 in thorough up to size 6) and parsed back by gluon's parser; the normal forms must be equal. 12 million (type, width) pairs in the quick tier.",
+   note="Normal form identifies only what the concrete syntax cannot distinguish; a second normal form derived from the description guards the comparison.", ref="4.18"),
+ "C19": dict(level="exploration", technique="bounded-exhaustive operation sequences / inputs against Rust reference models (BTreeMap, slice, str, serde_json, structural equality)",
+   text="std.map: all operation histories to depth 5 (6 thorough) over 4 colliding keys and all insertion orders of up to 6 keys against BTreeMap; list/array functions on all lists over {0,1,2} up to length 5 incl. all slice index pairs; string functions on all strings up to 4 chars over multi-byte alphabets at all byte indices; JSON values up to 5 nodes round-tripped and cross-checked with serde_json; all ADT shapes up to 3 constructors x 2 fields with derived Eq/Show/Serialize/Deserialize on all value pairs to depth 2. Real std Gluon code runs on a real VM; abort-prone calls run in child processes.",
+   note="Oracles demand only what the doc comments or the obvious mathematical definition say; see the engine's assume lines for what is not demanded (e.g. map.eq is structural).", ref="4.19"),
 }
 
 NOT_YET = {}
